@@ -703,20 +703,22 @@ def run_history(coord, shape, ops):
     return outs
 
 
-# base objects of the exhaustive core: (coord, shape, other shape, other coord of the same dimension)
+# base objects of the exhaustive core:
+# (coord, shape, other shape, other coord of the same dimension, (shape, coord) of another dimension)
 def hist_bases():
     perm = aug([[0, 2], [3, 0]], [1, 2])
     tri = aug([[1, 1], [0, 1]], [0, 0])
     diag2 = aug([[2, 0], [0, -1]], [[1, 2], -3])
     blk = aug([[1, 0, 0], [0, 1, 2], [0, -1, 1]], [1, 2, 3])
     chain = aug([[1, 1, 0], [0, 1, 1], [0, 0, 1]], [0, 0, 0])
+    one = aug([[2]], [3])
     return [
-        (diag2, [3, 4], [2, 5], perm),          # separable: the broadcasting branches
-        (perm, [3, 4], [4, 3], tri),
-        (tri, [2, 3], [3, 2], ["id", 2]),
-        (["id", 2], [3, 2], [2, 4], diag2),
-        (blk, [2, 3, 2], [3, 2, 3], chain),
-        (aug([[2]], [3]), [4], [6], aug([[-1]], [[1, 2]])),
+        (diag2, [3, 4], [2, 5], perm, ([2, 3, 2], blk)),          # separable: the broadcasting branches
+        (perm, [3, 4], [4, 3], tri, ([5], one)),
+        (tri, [2, 3], [3, 2], ["id", 2], ([2, 2, 3], chain)),
+        (["id", 2], [3, 2], [2, 4], diag2, ([3], ["id", 1])),
+        (blk, [2, 3, 2], [3, 2, 3], chain, ([3, 4], perm)),
+        (one, [4], [6], aug([[-1]], [[1, 2]]), ([2, 3], tri)),
     ]
 
 
@@ -736,7 +738,7 @@ def read_kinds(shape, rng, final):
     return vs
 
 
-def mutation_kinds(shape, shape2, other):
+def mutation_kinds(shape, shape2, other, alt):
     """every way (shape, coords) can change or must be kept, as op lists"""
     muts = []
     for sh in (shape, shape2):
@@ -752,6 +754,10 @@ def mutation_kinds(shape, shape2, other):
     muts.append([["uvd", shape2, "same"], ["uvd", shape, "same"]])            # there and back again
     muts.append([["touch", "dc"], ["uvd", shape2, "same"]])
     muts.append([["touch", "dc"], ["setc", ["new", other]]])
+    # another number of dimensions (pixel components re-created, coords go through None) - and back
+    muts.append([["uvd", alt[0], ["new", alt[1]]]])
+    muts.append([["uvd", alt[0], "none"], ["setc", ["new", alt[1]]]])
+    muts.append([["uvd", alt[0], ["new", alt[1]]], ["uvd", shape2, ["new", other]]])
     return muts
 
 
@@ -763,44 +769,66 @@ def shape_after(shape, ops):
     return sh
 
 
-def hist_core(rng, final):
+def hist_core(tier, rng, final):
     """exhaustive short core: read kind x mutation kind x read kind on every base object; the first read
     alternates between world components and links, the last one is the family's own kind"""
-    for coord, shape, shape2, other in hist_bases():
-        for mi, mut in enumerate(mutation_kinds(shape, shape2, other)):
+    for coord, shape, shape2, other, alt in hist_bases():
+        for mi, mut in enumerate(mutation_kinds(shape, shape2, other, alt)):
             sh2 = shape_after(shape, mut)
-            for fi, v1 in enumerate(read_kinds(shape, rng, "rw")):
+            firsts = read_kinds(shape, rng, "rw")
+            if tier == "quick":
+                # None and Ellipsis are one path (alternate); of the optimised kinds keep full slices and mixed
+                firsts = [firsts[mi % 2], firsts[2], firsts[3], firsts[4], firsts[7]]
+            for fi, v1 in enumerate(firsts):
                 first = "rw" if (fi + mi) % 3 or v1[0] == "mask" else "rl"
                 for v2 in read_kinds(sh2, rng, final):
                     yield [coord, shape, ["hist", [[first, v1]] + mut + [[final, v2]]]]
 
 
+def hist_pool(n, tier, rng):
+    pool = [["id", n]] + [random_dyadic(n, rng) for _ in range(2)]
+    if n >= 2:
+        pool.append(aug(rng.choice(list(itertools.islice(small_matrices(n), 200))), TRANSLATIONS[n][1]))
+    if n == 3:
+        pool += list(block_matrices(rng, 1))[-2:]
+        pool.append(aug(rng.choice(list(structured_3d())), TRANSLATIONS[3][1]))
+    shapes = shapes_for(n, tier, rng, 3) + [[rng.randint(1, 4 if tier == "quick" else 5) for _ in range(n)]]
+    return pool, shapes
+
+
 def hist_random(tier, rng, final, count):
-    """longer random histories (4-12 ops) over a pool of coordinate objects of one dimension"""
-    quick = tier == "quick"
+    """longer random histories (4-12 ops + final read) over a pool of coordinate objects per dimension"""
     for _ in range(count):
+        pools = {}
+
+        def pool_of(n):
+            if n not in pools:
+                pools[n] = hist_pool(n, tier, rng)
+            return pools[n]
         n = rng.choice([1, 2, 2, 2, 3, 3])
-        pool = [["id", n]] + [random_dyadic(n, rng) for _ in range(2)]
-        if n >= 2:
-            pool.append(aug(rng.choice(list(itertools.islice(small_matrices(n), 200))), TRANSLATIONS[n][1]))
-        if n == 3:
-            pool += list(block_matrices(rng, 1))[-2:]
-            pool.append(aug(rng.choice(list(structured_3d())), TRANSLATIONS[3][1]))
-        shapes = shapes_for(n, tier, rng, 3) + [[rng.randint(1, 4 if quick else 5) for _ in range(n)]]
+        pool, shapes = pool_of(n)
         coord = rng.choice(pool)
         shape = rng.choice(shapes)
         cur, sh, ops = coord, shape, []
         for _ in range(rng.randint(4, 12)):
             r = rng.random()
+            pool, shapes = pool_of(len(sh))
             if r < 0.5:
                 kind = final if rng.random() < 0.6 else ("rw" if final == "rl" else "rl")
                 vs = [v for v in views_for(sh, rng, 3, 2, masks=(kind == "rw"))]
                 # the non-optimised views are the ones that could be served from a stale full grid
                 v = rng.choice(vs if rng.random() < 0.5 else [w for w in vs if w[0] in ("all", "mask", "arrays")])
                 ops.append([kind, v])
-            elif r < 0.72:
+            elif r < 0.68:
                 cref = rng.choice(["same", "same", "eq", "none", ["new", rng.choice(pool)]])
                 sh = rng.choice(shapes) if rng.random() < 0.7 else sh
+                ops.append(["uvd", sh, cref])
+                cur = cref_coord(cur, cref)
+            elif r < 0.73:                                  # another number of dimensions
+                n2 = rng.choice([k for k in (1, 2, 3) if k != len(sh)])
+                pool, shapes = pool_of(n2)
+                cref = rng.choice(["none", ["new", rng.choice(pool)], ["new", rng.choice(pool)]])
+                sh = rng.choice(shapes)
                 ops.append(["uvd", sh, cref])
                 cur = cref_coord(cur, cref)
             elif r < 0.86:
@@ -810,11 +838,12 @@ def hist_random(tier, rng, final, count):
             else:
                 ops.append(["touch", rng.choice(["upc", "add", "rm", "dc", "sub"])])
         ops.append([final, rng.choice([["all", "N"], ["all", "E"]] + list(views_for(sh, rng, 2, 1, masks=(final == "rw"))))])
+        assert hist_valid(coord, shape, ops)
         yield [coord, shape, ["hist", ops]]
 
 
 def hist_cases(tier, rng, final):
-    yield from hist_core(rng, final)
+    yield from hist_core(tier, rng, final)
     yield from hist_random(tier, rng, final, 250 if tier == "quick" else 6000)
 
 
